@@ -146,7 +146,45 @@ fn admissible_cuts(f: &[u8]) -> Vec<usize> {
     v
 }
 
+/// allocation failures of the growable buffer (`Decoder<Vec<u8>>`): the allocator fails at one or two of
+/// the points where the decoder really asks it for memory (found by running the implementation), the model
+/// is told the same byte indices; line 0 = the run with failures, line 1 = a new decoder on the bytes after
+/// the last failure (what the continuation must equal); aux as for the `boundary` family
+pub fn alloc_failure_cases(rng: &mut Rng, n: usize, out: &mut Vec<Case>) {
+    for _ in 0..n {
+        let mut s: Vec<u8> = Vec::new();
+        for _ in 0..rng.range(2, 4) {
+            s.extend(start_free_noise(rng, 3));
+            let maxlen = *rng.pick(&[12usize, 40, 100, 300]);
+            s.extend(spec::frame(&rand_payload(rng, maxlen)));
+        }
+        if rng.chance(1, 3) {
+            s.extend(alpha_range(rng, 0, 6));
+        }
+        let st = tok(&s);
+        let mut fails: Vec<usize> = Vec::new();
+        for _ in 0..rng.range(1, 2) {
+            let (_, pts) = crate::implrun::decf_run(&fails, &[st.as_str()]);
+            let cands: Vec<usize> = pts.into_iter().filter(|p| fails.last().map(|l| p > l).unwrap_or(true)).collect();
+            if cands.is_empty() {
+                break;
+            }
+            fails.push(*rng.pick(&cands));
+        }
+        let last = match fails.last() {
+            Some(l) => *l,
+            None => continue,
+        };
+        let fl = fails.iter().map(|f| f.to_string()).collect::<Vec<_>>().join(",");
+        out.push(
+            Case::new("vec-alloc-failure", vec![format!("decf {} {} F", fl, st), format!("dec inf {} F", tok(&s[last..]))])
+                .with_aux(vec![last.to_string(), "0".into()]),
+        );
+    }
+}
+
 fn gen_c14(tier: &Tier, rng: &mut Rng, _w: usize, nw: usize, out: &mut Vec<Case>) {
+    alloc_failure_cases(rng, if tier.thorough { 20_000 } else { 3_000 } / nw, out);
     let n = if tier.thorough { 600_000 } else { 90_000 } / nw;
     for _ in 0..n {
         let cap = if rng.chance(1, 2) { None } else { Some(*rng.pick(&[0usize, 2, 4, 8, 16])) };
